@@ -193,6 +193,34 @@ def open_case(kind):
             P("missing_path_not_created", not fs.exists("nope.tdf"))
             I.goal("done")
             return
+        if kind.startswith("replaced"):
+            # the object is created while the path holds a TDF; the content is then replaced
+            # by something that does not start with the signature; every later open through
+            # that object must be refused
+            model, spec = C.make_prestate(I, fs, "x.tdf", 2, (16,), tag="x")
+            t = Tdf(fs.path("x.tdf"))
+            with t:
+                pass
+            k = int(kind[8:])
+            raw = I.rawbytes("raw", k)
+            if k >= 16:
+                I.assume(I.not_(raw[:16] == SF.SIGNATURE))
+            fs.create_raw("x.tdf", raw)
+            for how in ("with", "getter"):
+                try:
+                    if how == "with":
+                        with t as tt:
+                            got = len(tt.entries)
+                    else:
+                        got = t.has_events
+                    exc = None
+                except Exception as e:  # noqa: BLE001
+                    exc = e
+                I.observe(f"exc.{how}", type(exc).__name__ if exc else None)
+                P("opens_only_with_the_TDF_signature", exc is not None, f"{how}: object created before the content was replaced")
+            P("no_handle_left_open", fs.open_handles() == 0)
+            I.goal("refused")
+            return
         if kind.startswith("short"):
             k = int(kind[5:])
             fs.create_raw("x.tdf", I.rawbytes("raw", k))
@@ -222,6 +250,7 @@ def open_case(kind):
             P("valid_signature_is_accepted", I.not_(sig_ok), type(exc).__name__)
         obs = fs.obs("x.tdf")
         P("open_attempt_leaves_file_unchanged", obs.length == pre.length)
+        P("no_handle_left_open", fs.open_handles() == 0, "after the open attempt")
     return h
 
 
@@ -247,6 +276,6 @@ def instances(tier):
     for op in ("new", "copy"):
         for sk in ("tdf21", "raw5", "raw0"):
             out.append(Instance(f"sibling.{op}.{sk}", sibling_case(op, sk), goals=["done"]))
-    for k in ["missing", "sig", "short0", "short5", "short15"]:
+    for k in ["missing", "sig", "short0", "short5", "short15", "replaced0", "replaced16", "replaced40"]:
         out.append(Instance(f"open.{k}", open_case(k), goals=(["opened", "refused"] if k == "sig" else (["done"] if k == "missing" else ["refused"]))))
     return out
